@@ -3,7 +3,7 @@ import os
 from vcommon import Check
 
 c = Check("C08")
-c.translate(needed=["Gen_C08.v", "Gen_Limits.v"])
+c.translate(needed=["Gen_C08.v", "Gen_C08dct.v", "Gen_Limits.v"])
 c.coq(["C08"], "C08", "Prop_C08.v")
 drv = c.model("C08")
 h = c.harness("c08")
@@ -30,6 +30,9 @@ if h:
                     "c": "GetFilters (Chain.get_filters)",
                     "k": "classification wrappers (Classify.read_all/construct)",
                     "b": "translated limits.StreamBudget/MaxXRefEntries vs the compiled functions",
+                    "a": "budget charge vs allocation at the real allocation sites (Charge.v: DCT pixelPlaneBytes/makeImg, predictor, CCITT, JBIG2 pool, LZW)",
+                    "x": "validators of the real CCITT code tables (CCITT.main_table_ok/run_table_ok)",
+                    "e": "CCITT 2-D cursor arithmetic on first rows (CCITT.row2d) vs the real reader",
                 }
                 kinds = sorted(set(k[0] for k, _, _ in mism))
                 c.tie_broken(
@@ -48,17 +51,27 @@ c.finish(
         "DecodeStream over a byte source that fails (hook VerifNewStreamReaderAt) is judged by the oracle only (the source's own error must surface, identical); the classification model is compared on scripted inner readers through the hook VerifAsMalformedFilter",
         "model chains give every stage the full StreamBudget (exact for chains with at most one predictor stage with rows above 4 KiB; the harness compares only those)",
         "Go int is 64-bit (maxInt = 2^63-1) in Params.v; integer arithmetic of the predictor is unbounded in the model because Validate bounds all operands first (proved: validate_bounds)",
+        "the budget discipline (Charge.v) is a model of the allocation sites: the size formulas are hand-written from pixelPlaneBytes/makeImg, initBuffers, BufferBytes/NewReaderRaw, bitmapPool "
+        "(the translator has no field or index access, so they cannot be translated) and tied by running the real functions through pass-through hooks on all component counts 1,3,4 x all sampling factors 1..4; "
+        "that every site charges BEFORE it allocates is read off the code, and measured by the TotalAlloc oracle",
+        "the CCITT model (CCITT.v) covers where the reader writes (cursor, line length, row counter) for every sequence of table events; bits, code tables and reference lines are abstracted into those events. "
+        "Ties: validators run on the real mainTable/run tables, first-row cursor arithmetic compared with the real reader, row lengths and row counts measured on hostile bodies. CCITT termination rests on 'every event consumes a bit' (table validator) and is otherwise measured (watchdog)",
+        "JBIG2Decode reads the page data (bounded by min(budget.Available, 64 MiB+1)) before it charges it: the one site that allocates first; CCITT's changing-element index grows by append (capacity up to 2x its length)",
         "budget_props about MaxXRefEntries hold for 0 <= rawLen < 2^58 - 256 (the Go comment requires rawLen to be a file size); for all of int64 the statement is refuted (maxxref_overflow_refuted)",
     ],
     trusted=[
         "hand-written Gallina models coq/C08/{Simple,LZW,Predict,Params,Chain,Classify,Run}.v of filter.go, container.go, internal/filter/{asciihex,ascii85,runlength,lzw,predict}, tied by correspondence",
         "translated constants and functions coq/Gen/Gen_C08.v, Gen_Limits.v (StreamBudget, MaxXRefEntries, FlatePredictor.isValid, LZW and limit constants)",
-        "hooks /repo/verif_c08.go (VerifAsMalformedFilter, VerifNewStreamReaderAt): pass-through, no logic",
+        "hooks /repo/verif_c08.go (VerifAsMalformedFilter, VerifNewStreamReaderAt) and internal/filter/{dct/jpeg,predict,jbig2,ccittfax}/verif_c08.go "
+        "(VerifPlaneBytes, VerifProgBlock, VerifBufferLens, VerifPoolTrace, VerifMainTable, VerifRunTables, VerifStates): they call the real functions and report sizes; no logic",
+        "translated constants coq/Gen/Gen_C08dct.v (jpeg blockSize, bytesPerProgBlock, maxComponents; ccittfax decoder states)",
     ],
     partial=[
         "a85_out_bound_as_designed_refuted: the design's bound |a85_dec e| <= |e| is false ('z' expands 1 byte to 4); proved instead: a85_out_bound (<= 4*|e|)",
         "maxxref_overflow_refuted: MaxXRefEntries overflows int64 for rawLen >= 2^58-256; guarded version proved (budget_props_maxxref)",
         "classify_strict_refuted: an inner reader that returns an error wrapping io.EOF (errors.Is true, not identical) leaves the wrappers unclassified; classify holds with 'errors.Is(err, io.EOF)' as an allowed outcome, and classify_strict under the premise that inner readers signal EOF with io.EOF itself",
+        "dct_charge_two_components_refuted: for nComp = 2 pixelPlaneBytes would not cover makeImg's chroma planes; unreachable (the SOF parser accepts 1, 3 or 4 components); dct_charge_covers_alloc is proved for 1, 3, 4",
+        "ccitt_row_before_F41_F46_refuted: about CCITT.row2d_before_F41_F46, the decoder as it was before the repairs F41/F46 (a row could be one byte longer than ceil(Columns/8)); for the current code the documented bound is proved (ccitt_row_cap_as_documented)",
         "time/memory/goroutine/output-bound facts for Flate, CCITTFax, JBIG2, DCT: measured only",
     ],
 )
